@@ -73,6 +73,11 @@ def run_durable(ctx, *, model, programs, oracle_fns, n_random_progs=(6, 60), n_s
         if more:
             execs.extend(more)
     validate_executions(ctx, execs, f"{ctx.pid.lower()}-trace")
+    # programs with a map / parallel are outside Durable.tla: their executor invocations are validated against Executor.tla
+    conc = [e for e in execs if any(n.get("k") in ("map", "par") for n in e.prog.get("nodes", []))]
+    if conc:
+        from checks.conc_check import validate_exec_traces
+        validate_exec_traces(ctx, conc, [], name=f"{ctx.pid.lower()}_conc_extrace")
     return execs
 
 
